@@ -13,7 +13,6 @@ protocol version / credential class, anchored on golden artefacts).
 import json
 import os
 import struct
-import threading
 
 import c15_dev as D
 from lib import tlc
@@ -64,9 +63,15 @@ def dat_families():
             ele = db.get_bool("dat", "based_on_ele", False)
             cnt = db.get_int("dat", "ele_cnt_version", 1) if ele else 0
             sha256 = db.get_bool("dat", "dat_is_using_sha256_always", False)
+            swapped = db.get_bool("dat", "dac_version_is_swapped", False)
             fclass = ("ele%d" % cnt) if ele else {"cert_block_1": "cb1", "cert_block_21": "cb21"}.get(rot_type, "norot") + ("-sha256" if sha256 else "")
             res.append({"family": fam, "revision": rev, "latest": rev == latest, "socc": db.get_int("dat", "socc"), "ele": ele, "cnt": cnt,
-                        "sha256": sha256, "rot_type": rot_type, "fclass": fclass})
+                        "sha256": sha256, "rot_type": rot_type, "fclass": fclass, "swapped": swapped})
+    # a family whose revisions use different enclave container generations: the generic parser resolves the SoC class to the LATEST revision
+    for f in res:
+        gens = {g["cnt"] for g in res if g["family"] == f["family"]}
+        if f["ele"] and len(gens) > 1 and not f["latest"]:
+            f["fclass"] += "-oldrev"
     return res
 
 
@@ -136,6 +141,7 @@ class Host:
             dar = DebugAuthenticateResponse.load_from_config(cfg, dac)
         else:
             dar = DebugAuthenticateResponse.create(family=self.fam["family"], version=None, dc=dc_obj, auth_beacon=beacon, dac=dac, dck=pem)
+        self.dar_obj = dar
         return dar.export()
 
     def tools_hash(self, rot_names):
@@ -192,7 +198,8 @@ def _run_scenario(sc):
     ks = KEYSET[tuple(ver)]
     host = Host(sc)
     binds = ver[0] == 2
-    ev = [{"e": "Case", "cls": case["cls"], "ver": ver, "nkeys": n, "used": used, "wild": case["wild"], "sha256": fam["sha256"]}]
+    noparse = bool(sc.get("noparse"))  # continuation of a trace whose SpsdkParse step was rejected: the remaining clauses are still walked
+    ev = [{"e": "Case", "cls": case["cls"], "ver": ver, "nkeys": n, "used": used, "wild": case["wild"], "sha256": fam["sha256"], "noparse": noparse}]
     wit = {"blobs": {}}
     trace = {"id": sc["id"], "ev": ev, "sc": sc, "wit": wit}
 
@@ -211,7 +218,7 @@ def _run_scenario(sc):
     creds = {
         "cA": credA,
         "cB": dict(credA, socu=(socu ^ (1 << r.randrange(32)))),                                  # same keys, other rights
-        "cI": dict(credA, uuid=uu["d2"], dck="intr"),                                               # genuine, for the intruder's device, his key
+        "cI": dict(credA, uuid=uu["d2"], dck="intr", vu=r.getrandbits(32)),                         # genuine, for the intruder's device, his key
         "cE": dict(credA, uuid=bytes(16), dck="intr", rot=(["evil"] + rot[1:]) if ele else ["evil"], used=0),  # self-made
     }
     pubs = [D.load_pub(kp(k, ks, "pub")) for k in rot]
@@ -237,17 +244,20 @@ def _run_scenario(sc):
     ev.append({"e": "DcKeys", "rotIdx": rot_idx, "dckOk": dc["dck_pub"] == D.load_pub(kp("dck", ks, "pub")), "tableOk": table_ok(dc, pubs, ele)})
 
     # ---- SPSDK's own parser
-    try:
-        p = host.parse_dc(dcA)
-        out = spsdk_fields(p)
+    p = None
+    if not noparse:
         try:
-            reexport = p.export() == dcA
-        except Exception:  # noqa: BLE001
-            reexport = False
-        ev.append({"e": "SpsdkParse", "ok": True, "out": out, "eq": bool(p == dcA_obj), "reexport": reexport, "cls": type(p).__name__})
-    except Exception as e:  # noqa: BLE001 - "parses back" failed: decided by the spec (no such step)
-        ev.append({"e": "SpsdkParse", "ok": False, "exc": exc_name(e), "msg": str(e)[:200]})
-        return done()
+            p = host.parse_dc(dcA)
+            out = spsdk_fields(p)
+            try:
+                reexport = p.export() == dcA
+            except Exception:  # noqa: BLE001
+                reexport = False
+            ev.append({"e": "SpsdkParse", "ok": True, "out": out, "eq": bool(p == dcA_obj), "reexport": reexport, "cls": type(p).__name__})
+        except Exception as e:  # noqa: BLE001 - "parses back" failed: decided by the spec (no such step)
+            ev.append({"e": "SpsdkParse", "ok": False, "exc": exc_name(e), "msg": str(e)[:200]})
+            trace["parse_failed"] = True
+            return done()
 
     # ---- CheckDcSignature / CheckRotHash (device twin on the real bytes)
     fuses = D.rot_hash_from_dc(dc, ele)
@@ -273,7 +283,8 @@ def _run_scenario(sc):
     hl = 32 if (ele or fam["sha256"] or ver[0] == 1) else {0: 32, 1: 48, 2: 64}[ver[1]]
 
     def dac_bytes(d, ch):
-        return D.build_dac(ver, fam["socc"], uu[d], (fuses + bytes(64))[:hl], chs[ch], revocation=r.getrandbits(4), pinned=r.getrandbits(32),
+        # devices flagged dac_version_is_swapped send minor before major
+        return D.build_dac(ver[::-1] if fam["swapped"] else ver, fam["socc"], uu[d], (fuses + bytes(64))[:hl], chs[ch], revocation=r.getrandbits(4), pinned=r.getrandbits(32),
                            default=r.getrandbits(32), vu=r.getrandbits(32))
 
     dacs = {}
@@ -300,7 +311,7 @@ def _run_scenario(sc):
 
     # ---- Respond (SPSDK) and walk the response
     try:
-        dar = host.respond(dcA_obj if sc["dc_for_dar"] == "created" else p, dcA, dac, beacons["b1"], "dck", sc["dar_via"])
+        dar = host.respond(dcA_obj if (sc["dc_for_dar"] == "created" or p is None) else p, dcA, dac, beacons["b1"], "dck", sc["dar_via"])
     except Exception as e:  # noqa: BLE001 - nothing was built
         ev.append({"e": "Respond", "ok": False, "exc": exc_name(e), "msg": str(e)[:200], "spsdk": is_spsdk_error(e)})
         return done()
@@ -337,26 +348,38 @@ def _run_scenario(sc):
     if not ok:
         return done()
 
-    # ---- the intruder's attempts, spliced on real bytes, decided by the twin
+    # ---- the intruder's attempts, spliced on real bytes, decided by the twin.  The honest host is SPSDK (credentials cA, cB and
+    #      every response made with them); the intruder's own credentials cI / cE and his forgeries come from his own tools.
     siglen = len(w["sig"])
     dc_bytes = {"cA": dcA}
-    dc_objs = {"cA": dcA_obj}
     originals = {("cA", "d1", "ch1"): dar}
     flip_at = {}
+    intr_pub, intr_priv = D.load_pub(kp("intr", ks, "pub")), D.load_priv(kp("intr", ks, "pem"))
 
     def cred_bytes(c):
         if c not in dc_bytes:
-            dc_objs[c], dc_bytes[c] = host.create_dc(creds[c])
+            cr = creds[c]
+            if c == "cB":  # the host's second credential: same SPSDK class, same RoT meta data and signer, other rights
+                o = type(dcA_obj)(version=dcA_obj.version, socc=dcA_obj.socc, uuid=cr["uuid"], rot_meta=dcA_obj.rot_meta, dck_pub=dcA_obj.dck_pub,
+                                  cc_socu=cr["socu"], cc_vu=cr["vu"], cc_beacon=cr["beacon"], rot_pub=dcA_obj.rot_pub, signature_provider=dcA_obj.signature_provider)
+                o.sign()
+                dc_bytes[c] = o.export()
+            else:
+                rp = [D.load_pub(kp(k, ks, "pub")) for k in cr["rot"]]
+                dc_bytes[c] = D.forge_dc(ele, ver, fam["socc"], cr["uuid"], cr["socu"], cr["vu"], cr["beacon"], rp, cr["used"], intr_pub,
+                                         D.load_priv(kp(cr["rot"][cr["used"]], ks, "pem")))
         return dc_bytes[c]
 
     def original(c0, u0, ch0):
         k = (c0, u0, ch0)
         if k not in originals:
-            cred_bytes(c0)
-            originals[k] = host.respond(dc_objs[c0], dc_bytes[c0], dac_obj(u0, ch0), beacons["b1"], creds[c0]["dck"], "create")
+            if c0 == "cA":  # the honest host answers another challenge: same SPSDK response class and debug-key provider
+                o = type(host.dar_obj)(family=fam["family"], debug_credential=dcA_obj, auth_beacon=beacons["b1"], dac=dac_obj(u0, ch0),
+                                       sign_provider=host.dar_obj.sign_provider, revision=fam["revision"])
+                originals[k] = o.export()
+            else:
+                originals[k] = D.forge_dar(cred_bytes(c0), beacons["b1"], uu[u0], chs[ch0], binds, intr_priv, D.scheme_for(intr_pub, ele))
         return originals[k]
-
-    dcsig_cache = {}
 
     def deliver(dar_bytes, d, ch):
         return dev[d].verdict(dar_bytes, chs[ch])[0]
@@ -607,34 +630,45 @@ def run(tier):
         raise Machinery(f"GEN emitted {len(cases)} cases / {len(attempts)} attempts / {gen.distinct} states")
     say(f"[C15] GEN done {v.timer.s()}s: {len(cases)} cases, {len(attempts)} delivery attempts")
 
-    # ---- MC of the protocol in the background while the real code runs
-    mc_res = {}
+    # ---- MC of the protocol in a forked child while the real code runs (forked before any thread exists)
+    import multiprocessing as mp
 
-    def mc_job():
+    scratch()
+    parent_conn, child_conn = mp.get_context("fork").Pipe(duplex=False)
+
+    def mc_job(conn):
+        tlc._counter[0] += 1000  # own metadir names
         try:
-            mc_res["mc"] = tlc.mc("C15", "DatMC", "DatMC.cfg" if tier == "quick" else "DatMC_thorough.cfg", timeout=1500, heap="8g",
-                                  require_actions=("Challenge", "MCHostRespond", "DeliverSeen", "DeliverSpliced", "DeliverForged"))
+            res = tlc.mc("C15", "DatMC", "DatMC.cfg" if tier == "quick" else "DatMC_thorough.cfg", timeout=1500, heap="8g", workers=4 if tier == "quick" else 8,
+                         require_actions=("Challenge", "MCHostRespond", "DeliverSeen", "DeliverSpliced", "DeliverForged"))
+            conn.send(("ok", res))
         except Exception as e:  # noqa: BLE001
-            mc_res["err"] = e
+            conn.send(("err", str(e)))
+        conn.close()
 
-    th = threading.Thread(target=mc_job)
-    th.start()
+    mc_proc = mp.get_context("fork").Process(target=mc_job, args=(child_conn,))
+    mc_proc.start()
 
     fams = dat_families()
     if len({f["family"] for f in fams}) < 60:
         raise Machinery(f"only {len(fams)} DAT families found in the database")
     scs = plan(cases, attempts, fams, tier, r)
     say(f"[C15] {len(scs)} scenarios over {len({(s['fam']['family'], s['fam']['revision']) for s in scs})} family revisions")
-    traces = pmap(run_scenario, scs, chunksize=4)
+    order = r.sample(scs, k=len(scs))  # spread the expensive (RSA-4096) scenarios over the pool
+    traces = sorted(pmap(run_scenario, order, chunksize=2), key=lambda t: t["id"])
+    # a trace that stops at a failed SpsdkParse step is continued without that step (the step itself stays rejected)
+    cont = [dict(t["sc"], id=t["id"] + 100000, noparse=True, dar_via="create", dc_for_dar="created") for t in traces if t.get("parse_failed")]
+    traces += pmap(run_scenario, cont, chunksize=1)
     herr = [t for t in traces if t.get("harness_error")]
     if herr:
         raise Machinery(f"harness error in scenario {herr[0]['sc']['id']} ({herr[0]['sc']['fam']['family']}, {herr[0]['sc']['case']}): {herr[0]['harness_error']}")
     say(f"[C15] executed {v.timer.s()}s")
-    th.join()
-    if "err" in mc_res:
-        raise mc_res["err"]
-    v.add_mc(mc_res["mc"])
-    say(f"[C15] MC done {v.timer.s()}s: {mc_res['mc'].distinct} states")
+    kind, res = parent_conn.recv()
+    mc_proc.join()
+    if kind == "err":
+        raise Machinery(f"model checking of Dat failed: {res}")
+    v.add_mc(res)
+    say(f"[C15] MC done {v.timer.s()}s: {res.distinct} states, {res.generated} transitions")
     # non-vacuity of the protocol model: both outcomes of a delivery are reachable
     for inv in ("NeverAccepts", "NeverRejects"):
         nv = tlc.run("C15", "DatMC", f"DatMC_{inv}.cfg", timeout=300)
